@@ -176,6 +176,8 @@ def verify_function(contract, sources=None, timeout_ms=10000):
         if isinstance(goal, bool):
             goal = z3.BoolVal(goal)
         status, backend, dt, model = solve(axioms, q.pc, goal, timeout_ms)
+        if os.environ.get("PYVC_DEBUG"):
+            print("  [%s] %s %.2fs %s" % (status, name, dt, backend), flush=True)
         v = Verdict(name, status, backend, dt)
         if status == "refuted":
             v.model_text = model_summary(model, info) if model is not None else None
